@@ -27,7 +27,14 @@ def setup(rec, reach):
 
 
 def cases(shard, nshards, seed, tier):
-    return work3d.cases(ID, shard, nshards, seed, tier)
+    yield from work3d.cases(ID, shard, nshards, seed, tier)
+    # what a user reads: the stacking rows of the command-line tool's --csv file, the output path being reused
+    # for several inputs in a row (each stacking of the analysed input once, nothing else)
+    k = 0
+    for files in (["tests/1E7K_1_C.cif", "tests/1ATO.pdb", "tests/1ATO.pdb"], ["tests/1A1T_1_B.cif", "tests/4WTI_1_T-P.cif"]):
+        k += 1
+        if k % nshards == shard:
+            yield {"family": "cli-csv-path-reused", "files": files}
 
 
 def _call(s, model):
@@ -39,7 +46,45 @@ def _call(s, model):
         return 1
 
 
+def _cli_csv(case, rec):
+    import contextlib
+    import csv
+    import io
+    import os
+    import shutil
+    import sys
+    import tempfile
+
+    from rnapolis import annotator
+    from vmon import core, gen3d
+
+    d = tempfile.mkdtemp(prefix="vmon-c04-")
+    try:
+        pc = os.path.join(d, "out.csv")
+        for fn in case["files"]:
+            old = sys.argv
+            sys.argv = ["annotator", "--csv", pc, os.path.join(core.REPO, fn)]
+            try:
+                with contextlib.redirect_stdout(io.StringIO()):
+                    annotator.main()
+                err = None
+            except BaseException as e:
+                err = repr(e)
+            finally:
+                sys.argv = old
+            want = sorted((s.nt1.full_name, s.nt2.full_name, s.topology.value) for s in annotator.find_stackings(gen3d.load(fn, 1), 1))
+            rows = list(csv.reader(open(pc)))[1:] if os.path.exists(pc) else []
+            got = sorted((r[0], r[1], r[3]) for r in rows if len(r) >= 4 and r[2] == "stacking")
+            rec.mark_nontrivial(bool(want))
+            rec.check("cli.csv-lists-each-stacking-once", err is None and got == want,
+                      lambda: {"file": fn, "files": case["files"], "error": err, "csv-stacking-rows": len(got), "stackings": len(want), "extra": [g for g in got if g not in want][:4]})
+    finally:
+        shutil.rmtree(d, ignore_errors=True)
+
+
 def run_case(case, rec):
+    if case["family"] == "cli-csv-path-reused":
+        return _cli_csv(case, rec)
     work3d.run_case(ID, case, rec, _call)
 
 
